@@ -96,7 +96,7 @@ def round3_shapes(emit):
     # 1. duplicate_name: the loop of Model/TotalKern.lean::duplicateNameGo, and both parsers use it
     extract.find(EXPR, r"pub fn duplicate_name\(exprs: &\[ExprParam\]\) -> Option<IStr> \{\s*for \(i, param\) in exprs\.iter\(\)\.enumerate\(\) \{\s*if let ParamName::Named\(name\) = param\.destruct\.name\(\) \{\s*if exprs\[\.\.i\]\.iter\(\)\.any\(\|p\| p\.destruct\.name\(\) == name\) \{\s*return Some\(name\);\s*\}\s*\}\s*\}\s*None\s*\}")
     extract.find(IRP, r"result\.push\(ExprParam \{\s*destruct: d,\s*default,\s*\}\);\s*if let Some\(name\) = ExprParams::duplicate_name\(&result\) \{\s*return Err\(ParseError \{")
-    extract.find(PEGP, r"= params:param\(s\) \*\* comma\(\) comma\(\)\? \{\?\s*if ExprParams::duplicate_name\(&params\)\.is_some\(\) \{\s*return Err\(\"<unique parameter name>\"\)\s*\}\s*Ok\(ExprParams::new\(params\)\)\s*\}")
+    extract.find(PEGP, r"= params:comma_list\(<param\(s\)>\) \{\?\s*if ExprParams::duplicate_name\(&params\)\.is_some\(\) \{\s*return Err\(\"<unique parameter name>\"\)\s*\}\s*Ok\(ExprParams::new\(params\)\)\s*\}")
     # every ExprParams::new outside the constructor itself sits in a params rule (checked or empty list)
     for rel, want in ((IRP, 2), (PEGP, 2)):
         n = len(re.findall(r"ExprParams::new\(", extract.src(rel)))
